@@ -1,15 +1,22 @@
 package main
 
-type Rule struct {
-	Kind string `json:"kind"`
-}
-
 type Tables struct {
 	Records []RecLayout `json:"records"`
+	Codes   []CodeTable `json:"codes"`
 }
 
-func rulesOf(p *pkgInfo, typ string) []Rule { return nil }
-func extractRest(p *pkgInfo, repo string, t *Tables) {}
+func extractRest(p *pkgInfo, repo string, t *Tables) {
+	t.Codes = codeTables(p)
+	fd := funcDictTables(p)
+	for _, d := range dictTables(p) {
+		if ks, ok := fd[d.Name]; ok && len(d.Strs) == 0 {
+			d.Strs, d.Kind = ks, "str"
+		}
+		t.Codes = append(t.Codes, d)
+	}
+}
 
 
-func emitRest(dir string, t *Tables) {}
+func emitRest(dir string, t *Tables) {
+	emitRules(dir, t)
+}
